@@ -42,10 +42,16 @@ type completion struct {
 
 type ref struct {
 	g     Graph
+	fns   [][]Stmt
 	trace strings.Builder
-	// statistics for the evidence
-	pathsSeen map[string]bool
+	steps int // statements executed; the generators discard cases that run too long
+	// evidence that a case re-enters: calls of named functions made while some activation holds a pending
+	// control over a finally block (return / throw / break / continue) or a caught object in a catch body
+	pend, pendingCalls int
 }
+
+// a case whose reference run executes more statements than this is not used
+const stepLimit = 4000
 
 func (r *ref) supertypes(cls int) map[int]bool {
 	seen := map[int]bool{}
@@ -84,21 +90,41 @@ func (r *ref) instanceOf(t thrown, ty int) bool {
 	return r.supertypes(t.cls)[ty]
 }
 
-func (r *ref) block(b []Stmt, caught *thrown) completion {
+// lvl: the value of $n in the activation that executes the block. A call is a new activation: nothing of the
+// caller's state (its pending completion, its caught object, its loop) is visible to the callee — they are Go
+// locals of this interpreter's own frames.
+func (r *ref) block(b []Stmt, caught *thrown, lvl int) completion {
 	for _, s := range b {
-		if c := r.stmt(s, caught); c.kind != cNormal {
+		if c := r.stmt(s, caught, lvl); c.kind != cNormal {
 			return c
 		}
 	}
 	return completion{}
 }
 
-func (r *ref) stmt(s Stmt, caught *thrown) completion {
+func (r *ref) called(c completion) completion {
+	switch c.kind {
+	case cReturn:
+		fmt.Fprintf(&r.trace, "R%d;", c.val)
+	case cNormal:
+		r.trace.WriteString("R-;")
+	default:
+		return c
+	}
+	return completion{}
+}
+
+func (r *ref) stmt(s Stmt, caught *thrown, lvl int) completion {
+	r.steps++
+	if r.steps > stepLimit {
+		return completion{kind: cHostFailure}
+	}
+	tagged := func(v int) int { return lvl*levelMul + v }
 	switch s.K {
 	case "e":
-		fmt.Fprintf(&r.trace, "m%d;", s.N)
+		fmt.Fprintf(&r.trace, "m%d;", tagged(s.N))
 	case "t":
-		return completion{kind: cThrow, exc: thrown{true, s.Cls, s.N}}
+		return completion{kind: cThrow, exc: thrown{true, s.Cls, tagged(s.N)}}
 	case "rt":
 		if caught == nil {
 			return completion{kind: cThrow} // `throw` of an unbound variable: a class-less error
@@ -107,14 +133,14 @@ func (r *ref) stmt(s Stmt, caught *thrown) completion {
 	case "gp":
 		return completion{kind: cHostFailure}
 	case "r":
-		return completion{kind: cReturn, val: s.N}
+		return completion{kind: cReturn, val: tagged(s.N)}
 	case "b":
 		return completion{kind: cBreak}
 	case "c":
 		return completion{kind: cContinue}
 	case "l":
 		for n := 0; n < s.N; n++ {
-			c := r.block(s.Body, caught)
+			c := r.block(s.Body, caught, lvl)
 			if c.kind == cBreak {
 				break
 			}
@@ -124,18 +150,21 @@ func (r *ref) stmt(s Stmt, caught *thrown) completion {
 			return c
 		}
 	case "f":
-		c := r.block(s.Body, nil)
-		switch c.kind {
-		case cReturn:
-			fmt.Fprintf(&r.trace, "R%d;", c.val)
-		case cNormal:
-			r.trace.WriteString("R-;")
-		default:
-			return c
+		return r.called(r.block(s.Body, nil, lvl))
+	case "cf":
+		if lvl == 0 {
+			return completion{}
 		}
+		if s.N < 0 || s.N >= len(r.fns) {
+			return completion{kind: cThrow} // no such function: a class-less error
+		}
+		if r.pend > 0 {
+			r.pendingCalls++
+		}
+		return r.called(r.block(r.fns[s.N], nil, lvl-1))
 	case "y":
-		fmt.Fprintf(&r.trace, "T%d;", s.N)
-		pending := asThrow(r.block(s.Body, caught))
+		fmt.Fprintf(&r.trace, "T%d;", tagged(s.N))
+		pending := asThrow(r.block(s.Body, caught, lvl))
 		if pending.kind == cThrow {
 			for k, cl := range s.Catches {
 				hit := false
@@ -147,15 +176,24 @@ func (r *ref) stmt(s Stmt, caught *thrown) completion {
 				}
 				if hit {
 					e := pending.exc
-					fmt.Fprintf(&r.trace, "C%d.%d:%s;", s.N, k, e)
-					pending = asThrow(r.block(cl.Body, &e))
+					fmt.Fprintf(&r.trace, "C%d.%d:%s;", tagged(s.N), k, e)
+					r.pend++
+					pending = asThrow(r.block(cl.Body, &e, lvl))
+					r.pend--
 					break
 				}
 			}
 		}
 		if s.HasFin {
-			fmt.Fprintf(&r.trace, "F%d;", s.N)
-			if f := asThrow(r.block(s.Fin, caught)); f.kind != cNormal {
+			fmt.Fprintf(&r.trace, "F%d;", tagged(s.N))
+			if pending.kind != cNormal {
+				r.pend++
+			}
+			f := asThrow(r.block(s.Fin, caught, lvl))
+			if pending.kind != cNormal {
+				r.pend--
+			}
+			if f.kind != cNormal {
 				return f // what finally does replaces what was pending
 			}
 		}
@@ -173,8 +211,19 @@ func asThrow(c completion) completion {
 
 // expected marker trace and final state of a case, by PHP's rules
 func reference(c Case) (final, trace string) {
-	r := &ref{g: c.G}
-	done := r.block(c.Prog, nil)
+	final, trace, _ = referenceSteps(c)
+	return
+}
+
+// the same, with the number of statements the run executed (> stepLimit: the run was cut, the case is unusable)
+func referenceSteps(c Case) (final, trace string, steps int) {
+	final, trace, steps, _ = referenceFull(c)
+	return
+}
+
+func referenceFull(c Case) (final, trace string, steps, pendingCalls int) {
+	r := &ref{g: c.G, fns: c.Fns}
+	done := r.block(c.Prog, nil, c.Depth)
 	switch done.kind {
 	case cNormal:
 		final = "ok"
@@ -187,5 +236,5 @@ func reference(c Case) (final, trace string) {
 	default:
 		final = "stray"
 	}
-	return final, r.trace.String()
+	return final, r.trace.String(), r.steps, r.pendingCalls
 }
